@@ -84,41 +84,86 @@ def f1_f3_f5(prog, ctx):
                 else:
                     ctx.fail("F5", "%s parses with both options off" % w, c.where, "passes %s" % [render(a[pn.index(x)]) for x in ("join_same_entries", "python_style")],
                              key="hist-flags:%s" % w)
-    ctx.floor("C12 wrapper -> internal reader call sites", sites, 5)
-    # F3b: in the merged reader the object's own pair is chosen exactly when its conf_count > 0
+    ctx.floor("C12 wrapper -> internal reader call sites", sites, 3)
+    # F3b: in the merged reader the object's own pair is chosen exactly when its conf_count > 0.
+    # Works on "sources": a slot filled directly at one of several calls, or through a local whose definitions
+    # reach the one call.
+    from sa.dataflow import ReachingDefs
     cfg = merged.cfg
     calls = merged.calls(HIST)
     pn = hist.param_names()
-    if len(calls) != 2:
+    if not calls:
+        ctx.inconclusive("F3", "readConfigWithCallback chooses the directory pair", merged.where, "no call of the history builder")
+        return
+    rd = ReachingDefs(merged)
+    succ = {(b, i2): s2 for (b, i2, s2) in cfg.edges()}
+
+    def sources(c, slot):
+        a = c.call_args()[pn.index(slot)].strip()
+        if a.k == "DeclRefExpr" and a.j.get("dk") == "local":
+            ds = rd.reaching(a.j["name"], c)
+            if ds and all(d.rhs is not None for d in ds):
+                blocks = [cfg.block_of(d.node) for d in ds]
+                return [(render(d.rhs), cfg.block_of(d.node), d.node, [x for x in blocks if x != cfg.block_of(d.node)]) for d in ds]
+        return [(render(a), cfg.block_of(c), c, [])]
+
+    def is_guard(lit, pol):
+        return lit is not None and lit.kind == "lt" and lit.pol == pol and render(lit.rhs) == "(*result)->conf_count" and lit.lhs.const_value() == 0
+    if len(calls) == 2:
+        diff = [pn[k] for k in range(len(pn)) if render(calls[0].call_args()[k]) != render(calls[1].call_args()[k])]
+        if sorted(diff) == ["conf_count", "conf_dirs"]:
+            ctx.ok("F3", "the two history calls differ only in the directory pair", calls[0].where, "all other %d arguments identical" % (len(pn) - 2))
+        else:
+            ctx.fail("F3", "the two history calls differ only in the directory pair", calls[0].where, "they also differ in %s" % [d for d in diff if d not in ("conf_dirs", "conf_count")],
+                     key="pair-diff")
+    elif len(calls) > 2:
         ctx.inconclusive("F3", "readConfigWithCallback chooses the directory pair", merged.where, "%d calls of the history builder" % len(calls))
         return
-    own = [c for c in calls if render(c.call_args()[pn.index("conf_dirs")]) == "(*result)->conf_dirs"]
-    glob = [c for c in calls if render(c.call_args()[pn.index("conf_dirs")]) == "conf_dirs"]
-    if len(own) == 1 and len(glob) == 1:
-        diff = [pn[i] for i in range(len(pn)) if render(own[0].call_args()[i]) != render(glob[0].call_args()[i])]
-        if sorted(diff) == ["conf_count", "conf_dirs"]:
-            ctx.ok("F3", "the two history calls differ only in the directory pair", own[0].where, "all other %d arguments identical" % (len(pn) - 2))
-        else:
-            ctx.fail("F3", "the two history calls differ only in the directory pair", own[0].where, "they also differ in %s" % [d for d in diff if d not in ("conf_dirs", "conf_count")],
-                     key="pair-diff")
-        ok, cut = cfg.all_paths_cut(cfg.block_of(own[0]), lambda lit, b, i: lit is not None and lit.kind == "lt" and lit.pol
-                                    and render(lit.rhs) == "(*result)->conf_count" and lit.lhs.const_value() == 0)
-        ok2, cut2 = cfg.all_paths_cut(cfg.block_of(glob[0]), lambda lit, b, i: lit is not None and lit.kind == "lt" and not lit.pol
-                                      and render(lit.rhs) == "(*result)->conf_count" and lit.lhs.const_value() == 0)
-        if ok and cut and ok2 and cut2:
-            ctx.ok("F3", "the object's own list wins exactly when it is non-empty", own[0].where, "behind (*result)->conf_count > 0; the process-wide list otherwise")
-        else:
-            ctx.fail("F3", "the object's own list wins exactly when it is non-empty", own[0].where, "choice is not `(*result)->conf_count > 0`", key="pair-choice")
-        if render(own[0].call_args()[pn.index("conf_count")]) != "(*result)->conf_count":
-            ctx.fail("F3", "own list is passed with its own count", own[0].where, "count argument %s" % render(own[0].call_args()[pn.index("conf_count")]), key="pair-count")
-    else:
-        ctx.fail("F3", "readConfigWithCallback chooses the directory pair", merged.where, "calls pass %s" % [render(c.call_args()[pn.index("conf_dirs")]) for c in calls],
-                 key="pair-calls")
+    want = {"conf_dirs": ("(*result)->conf_dirs", "conf_dirs"), "conf_count": ("(*result)->conf_count", "conf_count")}
+    bad = None
+    for slot, (own_t, glob_t) in want.items():
+        srcs = [x for c in calls for x in sources(c, slot)]
+        texts = sorted(t for t, _, _, _ in srcs)
+        if texts != sorted([own_t, glob_t]):
+            if slot == "conf_count" and own_t not in texts:
+                ctx.fail("F3", "own list is passed with its own count", calls[0].where, "count slot receives %s" % texts, key="pair-count")
+            else:
+                ctx.fail("F3", "readConfigWithCallback chooses the directory pair", calls[0].where, "%s slot receives %s" % (slot, texts), key="pair-calls")
+            bad = True
+            continue
+        for t, blk, node, others in srcs:
+            if t == own_t:
+                ok, cut = cfg.all_paths_cut(blk, lambda lit, b, i2: is_guard(lit, True))
+                if not (ok and cut):
+                    bad = bad or (node, "%s is not chosen under `(*result)->conf_count > 0`" % own_t)
+            else:
+                # the process-wide value arrives at its call only over the negative edge (or is replaced on the way)
+                for c in calls:
+                    if any(x[2] is node for x in sources(c, slot)):
+                        ok, cut = cfg.all_paths_cut(cfg.block_of(c), lambda lit, b, i2: is_guard(lit, False) or succ.get((b, i2)) in others, start=(None if node is c else blk))
+                        if not (ok and cut):
+                            bad = bad or (node, "the process-wide %s is used although the object carries its own list" % glob_t)
+    if bad is None:
+        ctx.ok("F3", "the object's own list wins exactly when it is non-empty", calls[0].where, "behind (*result)->conf_count > 0; the process-wide list otherwise")
+    elif bad is not True:
+        ctx.fail("F3", "the object's own list wins exactly when it is non-empty", bad[0].where, bad[1], key="pair-choice")
 
 
 def f2(prog, ctx):
     for w in TWO_DIR:
         f = prog.fn(w)
+        # pure delegation to a sibling with both directories in their own slots
+        dele = [c for c in f.calls(TWO_DIR) if c.j.get("callee") != w]
+        if len(dele) == 1 and dele[0].up() is not None and dele[0].up().k == "ReturnStmt" and not any(True for _ in query.stores(f)):
+            g = prog.fn(dele[0].j["callee"])
+            pn = g.param_names()
+            a = dele[0].call_args()
+            if all(query.refs_param(a[pn.index(p)], p) for p in ("dist_conf_dir", "etc_conf_dir")):
+                ctx.ok("F2", "%s builds [dist or \"\", etc or \"\"]" % w, dele[0].where, "delegates to %s with dist_conf_dir/etc_conf_dir in their own slots" % g.name)
+            else:
+                ctx.fail("F2", "%s builds [dist or \"\", etc or \"\"]" % w, dele[0].where,
+                         "delegates to %s with directories %s" % (g.name, [render(a[pn.index(p)]) for p in ("dist_conf_dir", "etc_conf_dir")]), key="slot:%s:deleg" % w)
+            continue
         sts = {}
         for lhs, rhs, st, kind in query.stores(f):
             m = re.match(r"(.*parse_dirs)\[(\d+)\]$", render(lhs))
@@ -128,6 +173,8 @@ def f2(prog, ctx):
         ok = True
         for slot, p in want.items():
             vals = sorted(v for _, v in sts.get(slot, []))
+            if vals in (['strdup(%s ? %s : "")' % (p, p)], ['strdup(%s != NULL ? %s : "")' % (p, p)], ['strdup(%s == NULL ? "" : %s)' % (p, p)], ['strdup(!%s ? "" : %s)' % (p, p)]):
+                continue        # the conditional expression is the NULL test and the choice in one
             if vals != sorted(['strdup("")', "strdup(%s)" % p]):
                 ok = False
                 ctx.fail("F2", "%s: layer %d is %s or \"\"" % (w, slot, p), (sts.get(slot, [(f, "")])[0][0]).where,
